@@ -19,3 +19,7 @@ print(len(out), "signatures")
 consts = {name: sorted(mod.constants) for name, mod in sorted(m.modules.items())}
 pathlib.Path("/verif/curies_verif/known_constants.json").write_text(json.dumps(consts, indent=0, sort_keys=True))
 print(sum(len(v) for v in consts.values()), "module-level constants")
+
+required = {q: [p.name for p in f.params if p.default is None and p.kind in ("pos", "kwonly")] for q, f in sorted(m.functions.items())}
+pathlib.Path("/verif/curies_verif/known_required.json").write_text(json.dumps(required, indent=0, sort_keys=True))
+print(len(required), "required-parameter lists")
